@@ -58,7 +58,8 @@ def health(chk, g):
         raise AnalysisBroken("crypt grid lost cells: %d of %d" % (len(g["res"]), g["ncells"]))
     for cid, c in g["res"].items():
         if c["budget"]:
-            raise AnalysisBroken("XAI path budget exhausted in crypt cell %s" % cid)
+            chk.deferred.append("XAI path budget exhausted in crypt cell %s" % cid)
+            continue
         for p in c["paths"]:
             for a in p["alarms"]:
                 if a["kind"] in SOFT:
